@@ -104,6 +104,21 @@ DECLS = ("(declare-fun a () Bool)(declare-fun b () Bool)(declare-const c Bool)(d
          "(declare-fun v () (_ BitVec 4))(declare-fun w () (_ BitVec 4))\n")
 
 
+EVALUABLE = {"A", "B", "C3", "P0", "P1", "P2", "Q0", "Q1", "Q2", "R", "K"}
+
+
+def _script_brute():
+    from vf.brute import BruteSolver
+    from pysmt.solvers.smtlib import SmtLibBasicSolver
+
+    class ScriptBrute(BruteSolver, SmtLibBasicSolver):
+        """The incremental reference solver with the SMT-LIB command interface evaluate() drives."""
+    return ScriptBrute
+
+
+ScriptBrute = _script_brute()
+
+
 def script_from_text(world, seq, pick):
     """The same sequence written as SMT-LIB text and read by the parser."""
     from io import StringIO
@@ -212,6 +227,29 @@ def check_script_sequence(run, world, seq, via_text=None):
             run.fail({"subcheck": "script:live-goals"}, case,
                      "sequence %s: reported goals %r, live goals are %r" % (" ".join(seq), got, want))
             return
+        # the script executed on an incremental solver (SmtLibScript.evaluate): after it, the solver holds the same
+        # live assertions (scripts without optimisation commands)
+        if all(l in EVALUABLE for l in seq):
+            solver = ScriptBrute(world.env)
+            try:
+                log = sc.evaluate(solver)
+            except Exception as e:
+                run.fail({"subcheck": "script:evaluate-raised", "exc": type(e).__name__}, case,
+                         "evaluate() of the legal sequence %s on an incremental solver raised %s: %s" % (" ".join(seq), type(e).__name__, e))
+                return
+            run.cls("script:evaluated-on-a-solver")
+            live = list(solver.assertions)
+            if len(live) != len(want_asserts) or any(x is not y for x, y in zip(live, want_asserts)) or \
+                    solver.backend_assertions() != live:
+                run.fail({"subcheck": "script:evaluate-live-assertions"}, case,
+                         "sequence %s executed with evaluate(): the solver holds %s (backend %s), live assertions are %s" % (
+                             " ".join(seq), live, solver.backend_assertions(), want_asserts))
+                return
+            verdicts = [r for (n, r) in log if n == "check-sat"]
+            if any(v is not True for v in verdicts):        # a, (not a) or b, x < y: always satisfiable
+                run.fail({"subcheck": "script:evaluate-verdict"}, case,
+                         "sequence %s executed with evaluate(): check-sat verdicts %s" % (" ".join(seq), verdicts))
+                return
         # get_strict_formula
         has_pp = any(l[0] in "PQ" for l in seq)
         nk = sum(1 for l in seq if l == "K")
